@@ -2,6 +2,140 @@
 #![allow(dead_code, deprecated)]
 use arkharness::util::*;
 use ark_ff::{biginteger::arithmetic::{find_naf, find_relaxed_naf}, BigInt, BigInteger, BitIteratorBE, BitIteratorLE, signed_mod_reduction};
+use ark_serialize::{CanonicalDeserialize, CanonicalSerialize, Compress, Valid, Validate};
+use num_bigint::BigUint;
+use core::str::FromStr;
+
+/// re-executes this binary with `arg` (a single operation that may not terminate) under a time limit;
+/// result: the child's output line, `hang` (killed after `secs`), `stack-overflow` (SIGSEGV/SIGABRT) or `panic`
+fn run_child(arg: &str, secs: u64) -> String {
+    use std::io::Read;
+    use std::process::{Command, Stdio};
+    let exe = std::env::current_exe().unwrap();
+    let mut ch = Command::new(exe).arg(arg).stdout(Stdio::piped()).stderr(Stdio::null()).spawn().unwrap();
+    let t0 = std::time::Instant::now();
+    loop {
+        match ch.try_wait().unwrap() {
+            Some(st) => {
+                if st.success() {
+                    let mut o = String::new();
+                    ch.stdout.take().unwrap().read_to_string(&mut o).unwrap();
+                    return o.trim().to_string();
+                }
+                #[cfg(unix)]
+                { use std::os::unix::process::ExitStatusExt; if let Some(sig) = st.signal() { return if sig == 11 || sig == 6 { "stack-overflow".into() } else { format!("signal-{}", sig) }; } }
+                return if st.code() == Some(101) { "panic".into() } else { format!("exit-{:?}", st.code()) };
+            }
+            None => {
+                if t0.elapsed().as_secs() >= secs { let _ = ch.kill(); let _ = ch.wait(); return "hang".into(); }
+                std::thread::sleep(std::time::Duration::from_millis(10));
+            }
+        }
+    }
+}
+
+/// the operations of `ff/src/biginteger/mod.rs` that no other stream executes: bitwise operators (all receiver
+/// variants), `Not`, the `const fn`s called at run time, (de)serialization, conversions, formatting
+fn gap_ops<const N: usize>(rng: &mut Rng, thorough: bool, vals: &[[u64; N]], out: &mut Out) {
+    let n = format!("{:x}", N);
+    let ser = |x: &BigInt<N>, c: Compress| -> Vec<u8> { let mut v = Vec::new(); x.serialize_with_mode(&mut v, c).unwrap(); v };
+    let de = |bytes: &[u8], c: Compress, v: Validate| -> String {
+        match BigInt::<N>::deserialize_with_mode(bytes, c, v) { Ok(x) => hex_limbs(&x.0), Err(_) => "err".into() }
+    };
+    for (idx, a) in vals.iter().enumerate() {
+        let ah = hex_limbs(a);
+        let x = BigInt::<N>(*a);
+        let heavy = thorough || idx % 3 == 0;
+        out.line(&format!("C15 not {} {}", n, ah), &hex_limbs(&(!x).0));
+        out.line(&format!("C15 iseven {} {}", n, ah), &format!("{} {}", b(x.const_is_even()), b(x.const_is_odd())));
+        out.line(&format!("C15 mod4 {} {}", n, ah), &format!("{:x}", x.mod_4()));
+        out.line(&format!("C15 constshr {} {}", n, ah), &hex_limbs(&x.const_shr().0));
+        out.line(&format!("C15 d2rd {} {}", n, ah), &hex_limbs(&x.divide_by_2_round_down().0));
+        out.line(&format!("C15 cnumbits {} {}", n, ah), &format!("{:x}", x.const_num_bits()));
+        // two_adic_valuation / two_adic_coefficient do not terminate on the value 1: that case runs in a child process (N = 1 only)
+        let is_one = a[0] == 1 && a[1..].iter().all(|l| *l == 0);
+        if !is_one {
+            out.line(&format!("C15 tav {} {}", n, ah), &guarded(|| format!("{:x}", x.two_adic_valuation())));
+            out.line(&format!("C15 tac {} {}", n, ah), &guarded(|| hex_limbs(&x.two_adic_coefficient().0)));
+        } else if N == 1 {
+            out.line(&format!("C15 tav {} {}", n, ah), &run_child("child-tav1", 3));
+            out.line(&format!("C15 tac {} {}", n, ah), &run_child("child-tac1", 3));
+        }
+        if heavy {
+            out.line(&format!("C15 montr {} {}", n, ah), &guarded(|| hex_limbs(&x.montgomery_r().0)));
+            out.line(&format!("C15 montr2 {} {}", n, ah), &guarded(|| hex_limbs(&x.montgomery_r2().0)));
+        }
+        let (bc, bu) = (ser(&x, Compress::Yes), ser(&x, Compress::No));
+        out.line(&format!("C15 ser {} c {}", n, ah), &format!("{:x} {}", x.serialized_size(Compress::Yes), hex_list_u8(&bc)));
+        if heavy { out.line(&format!("C15 ser {} u {}", n, ah), &format!("{:x} {}", x.serialized_size(Compress::No), hex_list_u8(&bu))); }
+        out.line(&format!("C15 deser {} c {}", n, hex_list_u8(&bc)), &de(&bc, Compress::Yes, Validate::Yes));
+        if heavy {
+            out.line(&format!("C15 deser {} u {}", n, hex_list_u8(&bu)), &de(&bu, Compress::No, Validate::No));
+            // truncated / over-long inputs
+            let mut long = bc.clone(); long.extend_from_slice(&[0xab, 0xcd, 0xef]);
+            out.line(&format!("C15 deser {} c {}", n, hex_list_u8(&long)), &de(&long, Compress::Yes, Validate::Yes));
+            for cut in [8 * N - 1, 8 * N - 8, 1, 0] {
+                let t = &bc[..cut];
+                out.line(&format!("C15 deser {} c {}", n, hex_list_u8(t)), &de(t, Compress::Yes, Validate::Yes));
+            }
+        }
+        out.line(&format!("C15 valid {} {}", n, ah), if x.check().is_ok() { "ok" } else { "err" });
+        let bu_: BigUint = x.into();
+        let bi_: num_bigint::BigInt = x.into();
+        out.line(&format!("C15 tobig {} {}", n, ah), &format!("{:x} {:x}", bu_, bi_));
+        out.line(&format!("C15 trybiguint {} {:x}", n, bu_), &match BigInt::<N>::try_from(bu_.clone()) { Ok(v) => hex_limbs(&v.0), Err(_) => "err".into() });
+        out.line(&format!("C15 display {} {}", n, ah), &format!("{}", x));
+        out.line(&format!("C15 upperhex {} {}", n, ah), &format!("{:X}", x));
+        if heavy {
+            let s = format!("{}", bu_);
+            out.line(&format!("C15 fromstr {} {}", n, hex_list_u8(s.as_bytes())), &match BigInt::<N>::from_str(&s) { Ok(v) => hex_limbs(&v.0), Err(_) => "err".into() });
+        }
+    }
+    // From<u8/u16/u32/u64>
+    for (w, max) in [(8u32, u8::MAX as u64), (16, u16::MAX as u64), (32, u32::MAX as u64), (64, u64::MAX)] {
+        let mut xs = vec![0u64, 1, max, max - 1, max / 2 + 1];
+        for _ in 0..(if thorough { 8 } else { 2 }) { xs.push(rng.next() & max); }
+        for x in xs {
+            let r = match w { 8 => BigInt::<N>::from(x as u8), 16 => BigInt::<N>::from(x as u16), 32 => BigInt::<N>::from(x as u32), _ => BigInt::<N>::from(x) };
+            out.line(&format!("C15 fromuint {} {:x} {:x}", n, w, x), &hex_limbs(&r.0));
+        }
+    }
+    // TryFrom<BigUint> around the capacity 2^(64N)
+    {
+        let cap = BigUint::from(1u8) << (64 * N);
+        let mut xs = vec![cap.clone(), &cap - 1u8, &cap + 1u8, &cap << 1, &cap << 8, (&cap << 64) - 1u8, &cap >> 1, &cap >> 8, BigUint::from(0u8)];
+        for _ in 0..(if thorough { 12 } else { 3 }) { let k = rng.below(64 * N as u64 + 80); xs.push((BigUint::from(rng.next()) << k as usize) | BigUint::from(rng.next())); }
+        for x in xs {
+            out.line(&format!("C15 trybiguint {} {:x}", n, x), &match BigInt::<N>::try_from(x.clone()) { Ok(v) => hex_limbs(&v.0), Err(_) => "err".into() });
+            let s = format!("{}", x);
+            out.line(&format!("C15 fromstr {} {}", n, hex_list_u8(s.as_bytes())), &match BigInt::<N>::from_str(&s) { Ok(v) => hex_limbs(&v.0), Err(_) => "err".into() });
+        }
+    }
+    // FromStr: strings that are not plain decimal numbers, leading zeros
+    for s in ["", "0", "00", "007", "-1", "-0", "12a", "a", " 1", "1 ", "0x10", "1.0", "١"] {
+        out.line(&format!("C15 fromstr {} {}", n, hex_list_u8(s.as_bytes())), &match BigInt::<N>::from_str(s) { Ok(v) => hex_limbs(&v.0), Err(_) => "err".into() });
+    }
+    // bitwise operators: every receiver variant of BitXor/BitAnd/BitOr (+Assign), rotating over the pairs
+    let m = vals.len();
+    let mut pairs: Vec<(usize, usize)> = Vec::new();
+    let head = m.min(if thorough { 24 } else { 9 });
+    for i in 0..head { for j in 0..head { pairs.push((i, j)); } }
+    for _ in 0..(if thorough { 600 } else { 50 }) { pairs.push((rng.below(m as u64) as usize, rng.below(m as u64) as usize)); }
+    for i in 0..m { pairs.push((i, i)); pairs.push((i, m - 1 - i)); }
+    for (t, (i, j)) in pairs.into_iter().enumerate() {
+        let (x, y) = (BigInt::<N>(vals[i]), BigInt::<N>(vals[j]));
+        let (xh, yh) = (hex_limbs(&x.0), hex_limbs(&y.0));
+        let (rx, ra, ro) = match t % 4 {
+            0 => (x ^ y, x & y, x | y),
+            1 => (x ^ &y, x & &y, x | &y),
+            2 => { let (mut p, mut q, mut r) = (x, x, x); p ^= y; q &= y; r |= y; (p, q, r) }
+            _ => { let (mut p, mut q, mut r) = (x, x, x); p ^= &y; q &= &y; r |= &y; (p, q, r) }
+        };
+        out.line(&format!("C15 bxor {} {} {}", n, xh, yh), &hex_limbs(&rx.0));
+        out.line(&format!("C15 band {} {} {}", n, xh, yh), &hex_limbs(&ra.0));
+        out.line(&format!("C15 bor {} {} {}", n, xh, yh), &hex_limbs(&ro.0));
+    }
+}
 
 fn b(x: bool) -> &'static str { if x { "1" } else { "0" } }
 
@@ -77,6 +211,7 @@ fn ops<const N: usize>(rng: &mut Rng, thorough: bool, out: &mut Out) {
         let o = match x.cmp(&y) { core::cmp::Ordering::Less => "lt", core::cmp::Ordering::Equal => "eq", core::cmp::Ordering::Greater => "gt" };
         out.line(&format!("C15 cmp {} {} {}", n, xh, yh), o);
     }
+    gap_ops::<N>(rng, thorough, &vals, out);
 }
 
 pub fn run(rng: &mut Rng, thorough: bool, out: &mut Out) {
@@ -112,6 +247,12 @@ pub fn run(rng: &mut Rng, thorough: bool, out: &mut Out) {
 }
 
 fn main() {
+    // child mode: one call that does not terminate (see `gap_ops`)
+    match std::env::args().nth(1).as_deref() {
+        Some("child-tav1") => { println!("{:x}", BigInt::<1>([1]).two_adic_valuation()); return; }
+        Some("child-tac1") => { println!("{}", hex_limbs(&BigInt::<1>([1]).two_adic_coefficient().0)); return; }
+        _ => {}
+    }
     let a = arkharness::args();
     let mut rng = Rng::new(a.seed);
     let mut out = Out::new();
